@@ -28,7 +28,17 @@ MENU = {
     "pkgdefault": 'package.config = nil emit(package.searchpath("no.such{n}", "./?.lua;./y/?.lua"))',
     "pkgpath": 'package.path = "./p{n}/?.lua" emit(pcall(require, "nosuchmodule{n}"))',
     "require-miss": 'emit(pcall(require, "missing.mod{n}"))',
+    # the standard files are process-wide objects behind per-runtime wrappers: nothing one runtime does with its wrappers
+    # (closing them in any way, ending) may affect what another runtime can do with its own
+    "stdout-write": 'emit(pcall(function() assert(io.stdout:write("o{n}")) assert(io.stdout:flush()) return "written" end))',
+    "stderr-write": 'emit(pcall(function() assert(io.stderr:write("")) assert(io.stderr:flush()) return "written" end))',
+    "stdout-tbc": 'do local x <close> = io.stdout end emit("left-scope", io.type(io.stdout))',
+    "stderr-tbc": 'do local x <close> = io.stderr end emit("left-scope", io.type(io.stderr))',
+    "stdin-tbc": 'do local x <close> = io.stdin end emit("left-scope", io.type(io.stdin))',
+    "stdout-close": 'emit((pcall(io.close, io.stdout)), io.type(io.stdout))',
+    "output-default": 'emit(io.output() == io.stdout, pcall(function() assert(io.write("")) return "written" end))',
     # statements that span two segments: another runtime may run between their halves
+    "stdout|write": ['do local x <close> = io.stdout end', 'emit(pcall(function() assert(io.stdout:write("p{n}")) assert(io.stdout:flush()) return "written" end))'],
     "seed|draw": ['math.randomseed({n})', 'emit(math.random(1000), math.random(1000), math.random(0) ~= nil)'],
     "global|read": ['shared_name = "rt{n}"', 'emit(shared_name)'],
     "strmeta|use": ['getmetatable("").__index.twice = function(s) return s .. s .. "{n}" end', 'emit(("ab"):twice())'],
